@@ -7,6 +7,7 @@ import YaraModel.Lemmas.ReVm
 import YaraModel.Lemmas.ReEmit
 import YaraModel.Lemmas.ReAtomPos
 import YaraModel.Lemmas.ReComplete
+import YaraModel.Lemmas.ReCompleteSF
 namespace YaraModel.C03
 open YaraModel.Re
 
@@ -89,10 +90,59 @@ open YaraModel.ReVm in
     The de-duplication only drops EQUAL fibers, the pass keeps the successors of every accepted fiber and the callback is
     called for every fiber at MATCH, so nothing on the path is lost.  (First half of VM completeness; the second half —
     every match of the expression yields an accepting path through the emitted code — is proved for hex patterns,
-    Thm/C02 `vm_complete_hex_partial`; for regular expressions with ε-loops and counted repeats it is open.) -/
+    Thm/C02 `vm_complete_hex`, and for star-free regular expressions, `vm_complete_starfree_partial` below; for
+    regular expressions with ε-loops and counted repeats it is open.) -/
 theorem vm_reports_accepting (e : Env) (hx : e.fl.exhaustive = true) (hs : e.fl.scan = false) (m : Int) (c : List Nat)
     (h : exec e = .done m c) (n : Nat) (hacc : AccU e n { ip := e.entry } 0) : n * e.cs ∈ c :=
   exec_complete e hx hs m c h n hacc
+
+open YaraModel.ReVm YaraModel.ReEmit in
+/-- `vm_complete_starfree_partial`: VM COMPLETENESS (the converse of `vm_sound`) for the STAR-FREE fragment of regular
+    expressions, forward code, byte mode.  `starFree r` is a DECIDABLE predicate (Lemmas/ReCompleteSF.lean): `r` is built from
+    the consuming one-character nodes (literal — case-insensitive or not —, masked / negated literal, `.`, classes,
+    \w \W \s \S \d \D), the empty expression, `.{n,m}` (RE_NODE_RANGE_ANY, greedy or lazy, n ≤ m < 65536), concatenation and
+    alternation whose FIRST branch cannot be left without consuming a character (`sfHd`: it begins with a character node or
+    with `.{n,m}`, m ≥ 1 — recursively through nested alternatives).
+    EXCLUDED shapes, precisely: `*`, `+` and counted repeats `e{n,m}` of a sub-expression (ε-loops, the repeat stack); the
+    zero-width nodes `^ $ \b \B`; alternatives with a first branch that can be passed without consuming (`(|a)`, `(.{0,0}|a)`:
+    there the executed-split set may kill the second branch at a split the first one already executed; `(a|)` IS covered).
+    For ALL such expressions, buffers, start positions, nocase / dot-all flags and every match [start, start + L) with
+    L ≤ 1024 (the scan window): the exhaustive run of the executable model of `yr_re_exec` on `emitCode false r` that returns
+    without an error (`exec .. = .done m c`: fiber limit and fuel bounds not hit) reports L.  At most 256 alternatives
+    (yara: RE_MAX_SPLIT_ID = 128), code below 32000 bytes, not scan mode.
+    Proof: `vm_reports_accepting` + the path construction `acc_sf` by induction on the expression along the match
+    (the proof of Thm/C02 `vm_complete_hex` with the larger set of leaves).
+    `_partial`: the full statement is for every well-formed `Re` outside the known-finding shapes; open are the excluded
+    shapes above, wide mode and the non-exhaustive result (backward code: `vm_complete_starfree_backward_partial`). -/
+theorem vm_complete_starfree_partial (r : Re) (hr : starFree r = true) (hsz : (emit false r 0).1.length < 32000)
+    (hid : (emit false r 0).2 ≤ 256) (buf : Bytes) (start : Nat) (hst : start ≤ buf.size)
+    (fl : VmFlags) (hw : fl.wide = false) (hb : fl.backwards = false) (hsc : fl.scan = false) (hx : fl.exhaustive = true)
+    (fuel : Nat) (m : Int) (c : List Nat)
+    (h : exec { code := (emitCode false r).toArray, entry := 0, buf := buf, start := start, fl := fl, syncFuel := fuel } = .done m c)
+    (L : Nat) (hL : L ≤ 1024) (hm : Re.Matches (specFlags fl) buf r start (start + L)) : L ∈ c :=
+  vm_complete_sf r hr hsz hid buf start hst fl hw hb hsc hx fuel m c h L hL hm
+
+open YaraModel.ReVm YaraModel.ReEmit in
+/-- `vm_complete_starfree_backward_partial`: the mirrored statement for the BACKWARD code (EMIT_BACKWARDS = the forward code of
+    the mirrored expression `rev r`, run with RE_FLAGS_BACKWARDS): every match [start - L, start) with L ≤ 1024 has its
+    length reported by the exhaustive run that returns without error.  `starFree (rev r)`: the first branch of every
+    alternative cannot be passed BACKWARDS without consuming a character (it ends with a character node). -/
+theorem vm_complete_starfree_backward_partial (r : Re) (hr : starFree (rev r) = true) (hsz : (emit true r 0).1.length < 32000)
+    (hid : (emit true r 0).2 ≤ 256) (buf : Bytes) (start : Nat) (hst : start ≤ buf.size)
+    (fl : VmFlags) (hw : fl.wide = false) (hb : fl.backwards = true) (hsc : fl.scan = false) (hx : fl.exhaustive = true)
+    (fuel : Nat) (m : Int) (c : List Nat)
+    (h : exec { code := (emitCode true r).toArray, entry := 0, buf := buf, start := start, fl := fl, syncFuel := fuel } = .done m c)
+    (L : Nat) (hL : L ≤ 1024) (hLs : L ≤ start) (hm : Re.Matches (specFlags fl) buf r (start - L) start) : L ∈ c :=
+  vm_complete_sf_bwd r hr hsz hid buf start hst fl hw hb hsc hx fuel m c h L hL hLs hm
+
+open YaraModel.ReVm YaraModel.ReEmit in
+/-- the hypotheses are satisfiable together, non-trivially: `a(b|c\d|).{0,2}\w` (greedy) on `ac1xyz` — the expression is
+    star-free, the run returns `.done 6 [2, 3, 4, 5, 6]`, the expression matches [0, 4) (through `c\d`, no skipped byte)
+    and the theorem yields 4 ∈ [2, 3, 4, 5, 6]; `(|a)b` and `a*` are outside the fragment -/
+example : 4 ∈ [2, 3, 4, 5, 6] ∧ starFree (.cat (.alt .empty (.lit 97)) (.lit 98)) = false ∧ starFree (.star (.lit 97) true) = false :=
+  ⟨vm_complete_starfree_partial (.cat (.lit 97) (.cat (.alt (.lit 98) (.alt (.cat (.lit 99) .digit) .empty)) (.cat (.rangeAny 0 2 true) .wordCh)))
+    (by decide) (by decide) (by decide) "ac1xyz".toUTF8.data 0 (by decide) { exhaustive := true } rfl rfl rfl rfl
+    1000 6 [2, 3, 4, 5, 6] (by decide) 4 (by decide) ((Re.ends_iff_Matches _ _ _ _ _).1 (by decide)), by decide, by decide⟩
 
 open YaraModel.ReVm YaraModel.ReEmit in
 /-- instance: the exhaustive run on the code of `ab*` over `abb` reports the lengths of all three accepting paths -/
